@@ -149,7 +149,16 @@ def check (st : St) (op obs : String) : St × String :=
         else if !(fparts.contains "j:-") then (st, "FAIL a hot journal is left after recovery")
         else if !(fparts.contains "w:-" || fparts.contains "w:0") then (st, "FAIL un-checkpointed WAL content is left after recovery")
         else if next ≠ "ok" then (st, "FAIL the restarted node cannot take its write lock")
-        else (st, "ok")
+        else
+          -- after recovery (journal rolled back, WAL checkpointed) the database file is exactly
+          -- the image: `pageN` pages, nothing behind them
+          let dsize := (fparts.find? (·.startsWith "d:")).bind fun x => (x.drop 2).toString.toNat?
+          let pn := (fieldOf ws "rpageN") >>= String.toNat?
+          match dsize, pn with
+          | some d, some n =>
+            if st.ps ≠ 0 && d ≠ n * st.ps then (st, s!"FAIL after recovery the database file has {d} bytes but the image has {n} pages of {st.ps} bytes")
+            else (st, "ok")
+          | _, _ => (st, "ok")
       | _, _, _, _, _, _ => (st, s!"FAIL unreadable state after a crash: {obs.take 160}")
     | _, _ => (st, "ok")
   | "sapply" :: _ | "txapply" :: _ =>
